@@ -1248,6 +1248,14 @@ func (e *Exec) builtin(s *State, f *Frame, name string, args []Value, result ssa
 		return TupleV{}, stepResult{}, false
 	case "close":
 		e.closeChan(s, args[0])
+		if e.explore && !e.initMode {
+			// closing a channel wakes waiters: a visible scheduling point
+			if result != nil {
+				e.set(f, result, TupleV{})
+			}
+			f.ip++
+			return TupleV{}, stepResult{kind: kBlock}, true
+		}
 		return TupleV{}, stepResult{}, false
 	case "print", "println":
 		return TupleV{}, stepResult{}, false
